@@ -259,7 +259,10 @@ def in_sensor_frame(sens, m, v):
     return S.flipx(out) if sens.handedness == "left" else out
 
 
-def run_structure(rep, fnl, spec, field="B", sumup=False, squeeze=False, pixel_agg=None, tag="", fault=None):
+ALL_KINDS = frozenset(("element", "shape", "agg", "restore", "safety"))
+
+
+def run_structure(rep, fnl, spec, field="B", sumup=False, squeeze=False, pixel_agg=None, tag="", fault=None, kinds=ALL_KINDS):
     """explores the real getBH_level2 on one structure; returns list of failure dicts.
     fault: ("ff", group) | ("agg",): that user-supplied callable raises; then only 'the injected exception propagates' and 'all paths restored' are obligations"""
     fw, _ = namespaces()
@@ -290,12 +293,17 @@ def run_structure(rep, fnl, spec, field="B", sumup=False, squeeze=False, pixel_a
         npth += 1
         rep.paths += 1
         base = f"getBH_level2[{tag}]@path{npth}"
-        if kind != "ok":
-            st = "unknown" if kind == "unsupported" else "refuted"
-            rep.obligation(base + ".runs-to-completion", {"status": st, "backend": "symex", "time_s": 0, "reason": f"{type(res).__name__}: {res}"[:300]}, fnl)
-            if st == "refuted":
-                fails.append(dict(name=base + ".runs-to-completion", why=f"raised {type(res).__name__}: {res}"))
+        if kind == "unsupported":
+            rep.obligation(base + ".runs-to-completion", {"status": "unknown", "backend": "symex", "time_s": 0, "reason": f"{type(res).__name__}: {res}"[:300]}, fnl)
             continue
+        if kind == "exc":
+            # the real code raised on valid input: a failure of the value obligations; for the restore obligations it is one more exit to be checked
+            if kinds & {"element", "shape", "agg"}:
+                rep.obligation(base + ".runs-to-completion", {"status": "refuted", "backend": "symex", "time_s": 0, "reason": f"{type(res).__name__}: {res}"[:300]}, fnl)
+                fails.append(dict(name=base + ".runs-to-completion", why=f"raised {type(res).__name__}: {res}"))
+            res = ("raised", [])
+            if "restore" not in kinds:
+                continue
         out, aggcalls = res
         sources, sensors, objs = state["sources"], state["sensors"], state["objs"]
         assum = list(ctx.pc) + list(ctx.axioms)
@@ -310,7 +318,7 @@ def run_structure(rep, fnl, spec, field="B", sumup=False, squeeze=False, pixel_a
 
         # --- safety obligations recorded by the shim (slices / indices within bounds)
         seen = set()
-        for j, (pc_, ax_, f_, label, kd) in enumerate(ctx.oblig):
+        for j, (pc_, ax_, f_, label, kd) in enumerate(ctx.oblig if "safety" in kinds else []):
             key = (f_.sexpr(), label)
             if key in seen:
                 continue
@@ -319,14 +327,15 @@ def run_structure(rep, fnl, spec, field="B", sumup=False, squeeze=False, pixel_a
                 r = {"status": "discharged", "backend": "z3-simplify", "time_s": 0.0}
             else:
                 r = solve.discharge_quantified(pc_ + ax_, f_)
-            rep.obligation(f"{base}.safety{j}.{label.replace(' ', '-')}", r, fnl, "safety")
             if r["status"] == "refuted":
-                fails.append(dict(name=f"{base}.safety{j}", why=label))
+                # NumPy clips out-of-range slices silently: relying on that is legal; whether the RESULT is right is decided by the element obligations
+                r = dict(r, status="unknown", reason="a slice / index is not provably within bounds (NumPy would clip or raise)")
+            rep.obligation(f"{base}.safety{j}.{label.replace(' ', '-')}", r, fnl, "safety")
         # --- C08: every path restored
         import magpylib as magpy
 
         allobjs = [lf for s_ in sources for lf in leaves(s_)] + sensors
-        for ob in {id(o): o for o in allobjs}.values():
+        for ob in ({id(o): o for o in allobjs}.values() if "restore" in kinds else []):
             so = ob._sym
             pos, ori = ob._position, ob._orientation
             okshape = isinstance(pos, S.SA) and len(pos.dims) == 1 and isinstance(ori, S.RotS) and len(ori.q.dims) == 1
@@ -340,11 +349,15 @@ def run_structure(rep, fnl, spec, field="B", sumup=False, squeeze=False, pixel_a
             goal = z3.And(S.dim_size(pos.dims[0]).z3() == so.n.z3(), S.dim_size(ori.q.dims[0]).z3() == so.n.z3(),
                           z3.Implies(z3.And(0 <= i, i < so.n.z3()), z3.And(pos.elem(envp) == so.P(i), ori.q.elem(envq) == so.Q(i))))
             prove(f"{base}.paths-restored[{so.name}](length-and-every-entry)" + ("-after-the-injected-exception" if fault else ""), [], goal, "frame")
+        if isinstance(out, str) and not fault:
+            continue  # raised without an injected fault: only the restore obligations above apply
         if fault:
             okf = isinstance(out, str) and out == "raised"
             rep.obligation(base + ".injected-exception-propagates-to-the-caller", {"status": "discharged" if okf else "refuted", "backend": "symex", "time_s": 0}, fnl, "exceptional")
             if not okf:
                 fails.append(dict(name=base + ".injected-exception-propagates", why="the exception raised by the user-supplied callable was swallowed"))
+            continue
+        if not (kinds & {"element", "shape", "agg"}):
             continue
         # --- shape of the output
         L = 1 if sumup else len(sources)
@@ -499,10 +512,46 @@ def structures(tier):
     return out
 
 
+def random_structures(seed, count):
+    """thorough tier: structures drawn at random (top-level entries, nesting, groups, which paths are shorter, sensors and pixel formats)"""
+    import random
+
+    rnd = random.Random(seed)
+    out = []
+    for _ in range(count):
+        cnt = [0]
+
+        def src():
+            cnt[0] += 1
+            props = rnd.choice([None, None, ("polarization",), ("polarization", "dimension")])
+            g = rnd.choice(["g1", "g2", "g3"])
+            if props:
+                g = g + "p" + str(len(props))  # one property signature per group
+            return ("s", f"r{cnt[0]}", rnd.random() < 0.4, g, props, 2)
+
+        def entry(depth=0):
+            k = rnd.random()
+            if k < 0.45 or depth >= 2:
+                return src()
+            return ("c", [entry(depth + 1) for _ in range(rnd.randint(1, 3))])
+
+        sources = [entry() for _ in range(rnd.randint(1, 4))]
+        pix = rnd.choice(["K", "K", None, "bare", "one"])
+        sensors = [(f"k{j}", rnd.random() < 0.4, pix, rnd.choice(["right", "left"])) for j in range(rnd.randint(1, 2))]
+
+        def any_full(es):
+            return any((any_full(e[1]) if e[0] == "c" else not e[2]) for e in es)
+
+        if not any_full(sources) and all(sh for _, sh, _, _ in sensors):
+            sensors[0] = (sensors[0][0], False) + sensors[0][2:]  # M is the LONGEST path: at least one object has it
+        out.append(("R", dict(sources=sources, sensors=sensors)))
+    return out
+
+
 def variants(fam, spec, tier):
     """(field, sumup, squeeze, pixel_agg) combinations run for a structure"""
     v = [("B", False, False, None)]
-    if fam in ("A", "C"):
+    if fam in ("A", "C", "R"):
         v += [("B", True, False, None), ("H", False, True, None)]
     if fam in ("A", "B") and all(x[2] not in (None, "bare") for x in spec["sensors"]):
         v += [("B", False, False, "mean")]
@@ -597,15 +646,16 @@ def _groups(entries):
             yield e[3]
 
 
-def jobs_for(tier, fams, stride=None, faults=False):
+def jobs_for(tier, fams, stride=None, faults=False, seed=0):
     jobs = []
-    for fam, spec in structures(tier):
+    extra_structs = random_structures(seed, 40) if tier == "thorough" else []
+    for fam, spec in structures(tier) + extra_structs:
         for (field, sumup, squeeze, agg) in variants(fam, spec, tier):
             jobs.append((fam, spec, field, sumup, squeeze, agg))
     for fam, spec in mixed_pixel_structures(tier):
         jobs.append((fam, spec, "B", False, False, "mean"))
         jobs.append((fam, spec, "B", True, True, "mean"))
-    jobs = [j + (None,) for j in jobs if fams is None or j[0] in fams]
+    jobs = [j + (None,) for j in jobs if fams is None or j[0] in fams or j[0] == "R"]
     if faults:
         extra = []
         for j in jobs:
@@ -632,7 +682,7 @@ def jobs_for(tier, fams, stride=None, faults=False):
     return jobs
 
 
-def run(rep, tier, fams=None, stride=None, faults=False):
+def run(rep, tier, fams=None, stride=None, faults=False, kinds=ALL_KINDS):
     """obligations of the level-2 evaluation for the structure families `fams`; returns failures (see report_fails)"""
     import magpylib._src.fields.field_wrap_BH as FW
     import magpylib._src.input_checks as IC
@@ -649,7 +699,7 @@ def run(rep, tier, fams=None, stride=None, faults=False):
     rep.assume("level-2 obligations (checks/l2sym.py) hold for every path length M >= 1, every shorter path length 1 <= n < M, every pixel count K >= 1, all "
                "positions / orientations / field functions; the STRUCTURE (numbers of sources, collections, sensors; nesting; groups) is enumerated: "
                "<= 4 top-level sources, <= 3 leaves per collection, nesting depth 2, <= 3 sensors; pixel arrays of rank <= 2 ((K,3), (3,), None)")
-    jobs = jobs_for(tier, fams, stride, faults)
+    jobs = jobs_for(tier, fams, stride, faults, seed=rep.seed)
     if not jobs:
         raise RuntimeError("vacuity: no level-2 structure selected")
     tasks = []
@@ -660,7 +710,7 @@ def run(rep, tier, fams=None, stride=None, faults=False):
             old = solve.RECHECK_EVERY
             solve.RECHECK_EVERY = 40  # thorough tier: cvc5 second opinion on every 40th of these (many, similar) VCs
             try:
-                fl = run_structure(sub, fnl, spec, field, sumup, squeeze, agg, tag=tag, fault=fault)
+                fl = run_structure(sub, fnl, spec, field, sumup, squeeze, agg, tag=tag, fault=fault, kinds=frozenset(kinds))
             finally:
                 solve.RECHECK_EVERY = old
             for f in fl:
